@@ -17,7 +17,7 @@ use std::time::{Duration, Instant};
 
 pub const PROP: &str = "C18";
 
-pub const SHAPES: [Regime; 7] = [Regime::Up, Regime::Down, Regime::Alt, Regime::Flat, Regime::Saw, Regime::Walk, Regime::Few];
+pub const SHAPES: [Regime; 8] = [Regime::Up, Regime::Down, Regime::Alt, Regime::Flat, Regime::Saw, Regime::Walk, Regime::Few, Regime::Signed];
 
 pub fn bound(spec: &NodeSpec) -> i64 {
     256 + 64 * spec.params.sum_periods(spec.kind) as i64
@@ -64,8 +64,13 @@ pub fn exec(sc: &Scenario, st: &mut Stats) -> Option<Violation> {
     let mut clone_cycles = 0u64;
     let mut warm_at = warm;
     for (i, op) in sc.ops.iter().enumerate() {
+        let mut single: Option<(crate::sut::Input, Fault)> = None;
         let (desc, skip, len, fault, every, reset_every, clone_every) = match op {
             Op::Gen { g, skip, len, fault, every, reset_every, clone_every, .. } => (*g, *skip, *len, *fault, *every, *reset_every, *clone_every),
+            Op::Feed { x, f, .. } => {
+                single = Some((*x, *f));
+                (StreamDesc { regime: Regime::Flat, level: Fx(1.0), saw: 2, seed: 0, neg: false }, 0, 1, None, 0, 0, 0)
+            }
             Op::RoundTrip { .. } | Op::Fork { .. } => {
                 // crash/restore (or hand-over to a clone) in mid-stream: the process continues with the
                 // restored node; heap accounting restarts after a fresh warm-up of the restored node
@@ -81,6 +86,11 @@ pub fn exec(sc: &Scenario, st: &mut Stats) -> Option<Violation> {
             _ => continue,
         };
         crate::world::expand_gen(&desc, skip, len, fault, every, reset_every, |x, fk, reset| {
+            // an explicit Feed op is a stream of one given tick
+            let (x, fk) = match &single {
+                Some((sx, sf)) => (sx, *sf),
+                None => (x, fk),
+            };
             if reset {
                 on(Side::Subject, || node.reset());
                 resets_done += 1;
@@ -243,7 +253,7 @@ pub fn exec_plain(sc: &Scenario) -> Option<Violation> {
 }
 
 fn stream(shape: Regime, level: f64, saw: usize, seed: u64, len: u64) -> Op {
-    Op::Gen { n: 0, g: StreamDesc { regime: shape, level: Fx(level), saw, seed }, skip: 0, len, fault: None, every: 0, reset_every: 0, clone_every: 0 }
+    Op::Gen { n: 0, g: StreamDesc { regime: shape, level: Fx(level), saw, seed, neg: seed % 5 == 0 }, skip: 0, len, fault: None, every: 0, reset_every: 0, clone_every: 0 }
 }
 
 fn spec_for(kind: Kind, sum: usize, mode_sel: u64, split: u64) -> NodeSpec {
@@ -263,14 +273,63 @@ fn spec_for(kind: Kind, sum: usize, mode_sel: u64, split: u64) -> NodeSpec {
     NodeSpec { kind, params: Params::new(a, b, c, 2.0), mode, dflt: false }
 }
 
-/// fixed corpus: every kind x sum of periods 1..=16 x 7 shapes
+/// fixed corpus: every kind x sum of periods 1..=16 x 8 shapes
 fn sweep_scenario(idx: u64, len: u64) -> Scenario {
-    let shape = SHAPES[(idx % 7) as usize];
-    let r = idx / 7;
+    let shape = SHAPES[(idx % 8) as usize];
+    let r = idx / 8;
     let sum = 1 + (r % 16) as usize;
     let kind = ALL_KINDS[((r / 16) % 22) as usize];
     let spec = spec_for(kind, sum, idx, idx / 3);
     Scenario { property: PROP.into(), stage: "sweep".into(), nodes: vec![spec], ops: vec![stream(shape, 100.0, 2 + (idx % 9) as usize, idx, len)], workers: 0 }
+}
+
+/// poisoned-prefix sweep (fixed corpus): every prefix of length 0..=4 over a small alphabet that contains
+/// both signed zeros, NaN and both infinities, followed by a long monotone tail (rising / falling, positive
+/// / negative). A structure that a particular prefix leaves stuck leaks under one of the tails.
+const PFX: [f64; 7] = [-1.0, -0.0, 0.0, 1.0, f64::NAN, f64::INFINITY, f64::NEG_INFINITY];
+
+fn n_pfx(depth: u32) -> u64 {
+    (0..=depth).map(|d| 7u64.pow(d)).sum::<u64>()
+}
+
+fn prefix_specs() -> Vec<NodeSpec> {
+    let mut v = vec![];
+    for &k in ALL_KINDS.iter() {
+        for p in [2usize, 3] {
+            if k.n_periods() == 0 && p == 3 {
+                continue;
+            }
+            let mode = if k.has_scalar() { Mode::Scalar } else { Mode::Bar };
+            v.push(NodeSpec { kind: k, params: Params::new(p, p, 2, 2.0), mode, dflt: false });
+        }
+    }
+    v
+}
+
+fn prefix_scenario(idx: u64, specs: &[NodeSpec], depth: u32, tail: u64) -> Scenario {
+    let per = n_pfx(depth) * 4;
+    let spec = specs[(idx / per) as usize];
+    let mut r = idx % per;
+    let tail_kind = r % 4;
+    r /= 4;
+    let mut len = 0u32;
+    let mut base = 0u64;
+    while r >= base + 7u64.pow(len) {
+        base += 7u64.pow(len);
+        len += 1;
+    }
+    let mut code = r - base;
+    let mut ops = vec![];
+    for _ in 0..len {
+        let v = PFX[(code % 7) as usize];
+        code /= 7;
+        let f = if v.is_nan() { Fault::Nan } else if v == f64::INFINITY { Fault::PosInf } else if v == f64::NEG_INFINITY { Fault::NegInf } else if v == 0.0 { Fault::Zero } else { Fault::Clean };
+        ops.push(Op::Feed { n: 0, x: crate::sut::Input::scalar(v), f });
+    }
+    // tails: rising positive, falling positive, rising negative (towards 0), falling negative
+    let (regime, neg) = [(Regime::Up, false), (Regime::Down, false), (Regime::Down, true), (Regime::Up, true)][tail_kind as usize];
+    ops.push(Op::Gen { n: 0, g: StreamDesc { regime, level: Fx(3.0), saw: 2, seed: idx, neg }, skip: 0, len: tail, fault: None, every: 0, reset_every: 0, clone_every: 0 });
+    Scenario { property: PROP.into(), stage: "prefix-sweep".into(), nodes: vec![spec], ops, workers: 0 }
 }
 
 pub fn generate(rng: &mut Rng, tier: Tier) -> Scenario {
@@ -361,13 +420,26 @@ pub fn run(tier: Tier) -> i32 {
         Tier::Thorough => Duration::from_secs(1500),
     };
     let seeded_runs = crate::gen::scaled(seeded_runs);
-    let sweep = run_stage("sweep", if crate::gen::skip_fixed() { 1 } else { 22 * 16 * 7 }, wall_cap, &mut total, &|i| sweep_scenario(i, sweep_len), &exec_guarded, &[10], 4);
-    let seeded = if sweep.found.is_none() {
+    let sweep = run_stage("sweep", if crate::gen::skip_fixed() { 1 } else { 22 * 16 * 8 }, wall_cap, &mut total, &|i| sweep_scenario(i, sweep_len), &exec_guarded, &[10], 4);
+    let pspecs = prefix_specs();
+    let (pdepth, ptail) = match tier {
+        Tier::Quick => (3u32, 1500u64),
+        Tier::Thorough => (4u32, 6000u64),
+    };
+    let psweep = if sweep.found.is_none() && !crate::gen::skip_fixed() {
+        Some(run_stage("prefix-sweep", pspecs.len() as u64 * n_pfx(pdepth) * 4, wall_cap, &mut total, &|i| prefix_scenario(i, &pspecs, pdepth, ptail), &exec_guarded, &[1000], 8))
+    } else {
+        None
+    };
+    let seeded = if sweep.found.is_none() && psweep.as_ref().map_or(true, |p| p.found.is_none()) {
         Some(run_stage("seeded", seeded_runs, wall_cap, &mut total, &|i| generate(&mut Rng::new(run_seed(c.seed, PROP, "seeded", i)), tier), &exec_guarded, &[0, 1], 4))
     } else {
         None
     };
     let mut stages = vec![&sweep];
+    if let Some(s) = &psweep {
+        stages.push(s);
+    }
     if let Some(s) = &seeded {
         stages.push(s);
     }
@@ -378,7 +450,7 @@ pub fn run(tier: Tier) -> i32 {
         &total,
         report::EvidenceMeta {
             level: "exploration",
-            rule: "one evaluation = one node fed one long stream (sum of periods 1..=512; shapes monotone up/down, alternating x1000, flat, saw-tooth, random walk, ties-heavy, or two shapes back to back; 2e4 ticks, 5% 2e5 in quick, up to 1e6 in thorough) under a memory cap and a disk quota both equal to B = 256 + 64*sum(periods): bincode size probed at every tick of the first 4*sum+16 and then at every power of two and every 4096th tick; live heap attributable to the node (per-thread counting allocator, harness allocates nothing inside the window) after warm-up vs at every probe, transient peak between probes, and the cost of cloning the final node; 35% of the seeded runs carry a corrupt feed (a fault value every k-th tick) and/or periodic resets, 30% checkpoint and restore the node (or hand over to a clone) in mid-stream and continue with the restored node. Sweep: every indicator x sum of periods 1..=16 x 7 shapes. distinct_nontrivial counts distinct (indicator, period bucket, stream shape, input mode, stream-length class) tuples whose run got past warm-up.",
+            rule: "one evaluation = one node fed one long stream (sum of periods 1..=512; shapes monotone up/down, alternating x1000, flat, saw-tooth, random walk, ties-heavy, or two shapes back to back; 2e4 ticks, 5% 2e5 in quick, up to 1e6 in thorough) under a memory cap and a disk quota both equal to B = 256 + 64*sum(periods): bincode size probed at every tick of the first 4*sum+16 and then at every power of two and every 4096th tick; live heap attributable to the node (per-thread counting allocator, harness allocates nothing inside the window) after warm-up vs at every probe, transient peak between probes, and the cost of cloning the final node; 35% of the seeded runs carry a corrupt feed (a fault value every k-th tick) and/or periodic resets, 30% checkpoint and restore the node (or hand over to a clone) in mid-stream and continue with the restored node. Sweep: every indicator x sum of periods 1..=16 x 8 shapes. Prefix sweep: every indicator (periods 2 and 3) x every prefix of length <= 3 (quick) / 4 (thorough) over {-1, -0.0, +0.0, 1, NaN, +inf, -inf} x 4 long monotone tails (rising/falling, positive/negative). distinct_nontrivial counts distinct (indicator, period bucket, stream shape, input mode, stream-length class) tuples whose run got past warm-up.",
             assumptions: vec![
                 "heap measured through the Rust global allocator of the harness process; memory obtained by other means (mmap, FFI) would be invisible - the crate has neither".into(),
                 "the cap is enforced by detection at probes (and by peak tracking between probes), not by failing the allocation: allocation failure aborts instead of unwinding".into(),
@@ -387,7 +459,8 @@ pub fn run(tier: Tier) -> i32 {
             wall_s: wall,
             violations,
             exhaustive: false,
-            extra: json!({"sweep": {"configs": 22 * 16 * 7, "ticks_each": sweep_len, "stage": sweep.json()}, "seeded": seeded.as_ref().map(|s| s.json()), "dead_fault_kinds": dead, "headroom": total.maxima}),
+            extra: json!({"sweep": {"configs": 22 * 16 * 8, "ticks_each": sweep_len, "stage": sweep.json()}, "prefix_sweep": {"specs": pspecs.len(), "depth": pdepth, "tail_ticks": ptail, "stage": psweep.as_ref().map(|s| s.json())},
+                           "seeded": seeded.as_ref().map(|s| s.json()), "dead_fault_kinds": dead, "headroom": total.maxima}),
         },
     );
     println!("C18 {:?}: sweep {} runs, seeded {} runs, {} ticks, {} probes, {} situations, {:.1}s, violations={}", tier, sweep.executed, seeded.as_ref().map_or(0, |s| s.executed), total.ticks, total.comparisons, total.situations.len(), wall, violations);
